@@ -126,8 +126,9 @@ def run_history(ctx, hist, transport, world):
                     ndob = op["kw"].get("ndob", 0)
                     block = bytearray(payload(op["id"], 0, bs))
                     getattr(s, "writesame%d" % w)(lba, tl, None if ndob and op["id"] % 2 else block, **op["kw"])
+                    blk = bytes(bs) if ndob else bytes(block)  # one object for the whole run
                     for i in range(tl):
-                        shadow[lba + i] = bytes(bs) if ndob else bytes(block)
+                        shadow[lba + i] = blk
                         written.add(lba + i)
                     results.append(("writesame", lba, tl, ndob))
                     if tl > 64:
